@@ -226,11 +226,6 @@ func runCase(c Case) *hx.Failure {
 		i, t := i, t
 		switch t.Via {
 		case viaDirect:
-			tid := erp.NewThreadID()
-			if tids[tid] || tid == 0 {
-				dupTid = true
-			}
-			tids[tid] = true
 			tvs := scope.NewScopeWithParent(fmt.Sprintf("thread %d", i), gvs)
 			tvs.SetLocalValue("id", float64(i))
 			wg.Add(1)
@@ -238,6 +233,19 @@ func runCase(c Case) *hx.Failure {
 				defer wg.Done()
 				defer finish(i)
 				<-startGate
+				// every thread asks the provider for its id itself, at the same moment as the others (a host
+				// starting threads from several goroutines does the same); a short burst of requests per
+				// thread makes overlapping requests likely. Ids must be distinct: the owner table is keyed by them.
+				var tid uint64
+				for k := 0; k < 64; k++ {
+					tid = erp.NewThreadID()
+					guardMu.Lock()
+					if tids[tid] || tid == 0 {
+						dupTid = true
+					}
+					tids[tid] = true
+					guardMu.Unlock()
+				}
 				doYield(t.Delay)
 				if f := hx.Guard(func() {
 					_, threadErr[i] = callAST[t.Body].Runtime.Eval(tvs, make(map[string]interface{}), tid)
@@ -409,7 +417,7 @@ func (st *probeState) verdict(c Case, src string, guardFail *hx.Failure, dupTid 
 		return st.fail
 	}
 	if dupTid {
-		return hx.Failf("thread-id-not-unique", "NewThreadID returned 0 or the same id twice")
+		return hx.Failf("thread-id-not-unique", "NewThreadID, asked by %d threads at the same time (64 requests each), returned 0 or the same id twice: two threads with one id are one re-entrant owner for every mutex", len(c.Threads))
 	}
 	// every thread which started also reached the end of its body
 	for i, t := range st.thr {
